@@ -775,9 +775,10 @@ func (s *Server) cmdSearch(msg *Message) (res resp.Value, err error) {
 		if sw.output == outputCount && len(sw.wheres) == 0 &&
 			len(sw.whereins) == 0 && len(sw.whereevals) == 0 &&
 			sw.globEverything {
-			count := sw.col.StringCount() - int(sargs.cursor)
-			if count < 0 {
-				count = 0
+			count := 0
+			if sargs.cursor < uint64(sw.col.StringCount()) {
+				// (a cursor beyond the int range must not wrap around)
+				count = sw.col.StringCount() - int(sargs.cursor)
 			}
 			if uint64(count) > sw.limit {
 				// a LIMIT caps COUNT exactly as it does on the filtered path
